@@ -7,6 +7,7 @@ import (
 
 	"golang.org/x/tools/go/ssa"
 
+	"verif/checker/flow"
 	"verif/checker/ir"
 	"verif/checker/lockset"
 	"verif/checker/report"
@@ -688,6 +689,10 @@ func checkC09Payload(c *Ctx) {
 	c09EncoderFramed(c, "R-frame-terminated")
 	c10OneResponder(c, "R-one-responder")
 	c09DataLineWhole(c, "R-data-line-whole")
+	// a bufio.Scanner at its default token limit silently stops at the first line of 64 KiB: a frame split (or read)
+	// with one loses every message of that size
+	scannersBounded(c, c.P.LibFns, "R-scanner-bounded")
+	c09FrameAtomic(c, "R-frame-atomic")
 	// (a) fmt.Fprintf(w, "...data: %s...", payload): payload must come from json.Marshal
 	// (b) functions that write a payload followed by "\n" to an io.Writer param (stdio line writer): payload from json.Marshal
 	for _, fn := range c.P.LibFns {
@@ -1339,5 +1344,59 @@ func c09DataLineWhole(c *Ctx, rule string) {
 	}
 	if n < 1 {
 		c.R.Break("%s: only %d functions emitting SSE data lines found", rule, n)
+	}
+}
+
+// ---------------------------------------------------------------- R-frame-atomic
+// A frame is put on the stream only when all of it exists. A function that writes the beginning of a frame ("id: …\n
+// data: ") and then encodes the payload straight into the stream (json.NewEncoder(w).Encode) has already committed
+// half a frame when the payload turns out to be unencodable: the fallback answer written next is glued to it, and the
+// receiver reassembles one event that is no JSON message. The payload is therefore encoded to bytes first; an Encode
+// onto a writer is not preceded, in the same function, by another write to that writer.
+func c09FrameAtomic(c *Ctx, rule string) {
+	n := 0
+	for _, fn := range c.P.LibFns {
+		if clientSide(c, fn) {
+			continue
+		}
+		ir.EachInstr(fn, func(_ *ssa.BasicBlock, _ int, in ssa.Instruction) {
+			enc, ok := in.(*ssa.Call)
+			if !ok || ir.CallName(enc) != "(*encoding/json.Encoder).Encode" {
+				return
+			}
+			mk := originCall(enc.Call.Args[0])
+			if mk == nil || ir.CallName(mk) != "encoding/json.NewEncoder" {
+				return
+			}
+			w := ir.Unwrap(mk.Call.Args[0])
+			if _, isParam := w.(*ssa.Parameter); !isParam {
+				if _, _, isField := ir.LoadedField(w); !isField {
+					return // a local buffer
+				}
+			}
+			n++
+			prefix := ""
+			ir.EachInstr(fn, func(_ *ssa.BasicBlock, _ int, x ssa.Instruction) {
+				call, ok := x.(*ssa.Call)
+				if !ok || call == enc || call == mk || !flow.Reaches(call, enc) || flow.Reaches(enc, call) && flow.InCycle(enc.Block()) {
+					return
+				}
+				writes := false
+				switch nm := ir.CallName(call); {
+				case nm == "fmt.Fprintf" || nm == "fmt.Fprint" || nm == "fmt.Fprintln" || nm == "io.WriteString":
+					writes = ir.Unwrap(call.Call.Args[0]) == w
+				case call.Call.IsInvoke() && writeMethods[call.Call.Method.Name()]:
+					writes = ir.Unwrap(call.Call.Value) == w
+				}
+				if writes {
+					prefix = c.Pos(call.Pos())
+				}
+			})
+			c.R.Check(prefix == "", rule, "payload encoded onto the stream in "+fname(fn), c.Pos(enc.Pos()), "nothing of the frame is on the stream before the payload is known to encode",
+				sprintf("%s writes the beginning of a frame to the stream (at %s) and then encodes the payload directly onto it: when the payload cannot be encoded half a frame is already out, the error answer sent instead is appended to it, and the receiver reassembles one event whose data is not a JSON message", fname(fn), prefix))
+		})
+	}
+	if n == 0 {
+		c.R.Hold(rule, "no payload is encoded directly onto a stream after part of its frame", "", "server-side json.Encoder.Encode onto writer parameters / members: none preceded by a write to the same writer")
 	}
 }
